@@ -13,7 +13,7 @@ func FuzzParse(f *testing.F) {
 	for i := 0; i < 30; i++ {
 		f.Add(schema.Render(schema.SynFile(s), schema.Style{}))
 	}
-	for _, h := range []string{"'a' enum E { A = 0; }", "enum E { A = 0; } 1.5", "message M { a int32 0x10 }", "service S { m () (<-A, B->) C; }", "import ( x \"y\" ) options ( a = \"b\" )", "/* x", "\"x", "`r`"} {
+	for _, h := range []string{"'a' enum E { A = 0; }", "enum E { A = 0; } 1.5", "message M { a int32 0x10 }", "service S { m () (<-A, B->) C; }", "import ( x \"y\" ) options ( a = \"b\" )", "/* x", "\"x", "`r`", "enum E { A = 09; }", "message M { a int32 1 } \x00 zz", "options ( a = \"b\\q\" )"} {
 		f.Add(h)
 	}
 	f.Fuzz(func(t *testing.T, src string) {
@@ -22,6 +22,7 @@ func FuzzParse(f *testing.F) {
 		}
 		js, ok := parse(t, src, "native fuzzing")
 		if ok {
+			lexicallyClean(t, src, js, "native fuzzing")
 			faithful(t, src, js, "native fuzzing")
 		}
 	})
